@@ -71,7 +71,7 @@ def run(ctx):
         rgroups[k].sort(key=lambda r: (r["kind"], r["flags"], r["compressed"]))
         rng.shuffle(rgroups[k])
     qgroups = collections.Counter((q["ver"], q["comp"], "prepare" if q["op"] == "PREPARE" else "data") for q in reqs)
-    base = 3 if thorough else 2
+    base = 24 if thorough else 2
     cursor = collections.Counter()
     per_maxv = collections.defaultdict(list)
     for q in sorted(reqs, key=lambda q: (q["maxv"], q["ver"], q["comp"], q["op"], q["sel"], q["compressed"], q["flags"])):
@@ -84,7 +84,7 @@ def run(ctx):
             r = pool[cursor[gk] % len(pool)]
             cursor[gk] += 1
             a, b = rng.random(), rng.random()
-            big = 0.02 if thorough else 0.012
+            big = 0.015 if thorough else 0.012
             x = {"ver": q["ver"], "op": q["op"], "sel": q["sel"], "flags": q["flags"], "comp": q["comp"],
                  "compressed": q["compressed"], "cons": rng.choice(levels),
                  "size": "L" if a < big else "M" if a < big + 0.1 else "S",
